@@ -204,4 +204,10 @@ func init() {
 	fire("C15", "html-escapes-undone-in-the-written-document", pj, `(?s)"encoding/json"\n(.*?)\tfile, _ := json\.MarshalIndent\(sequence, "", " "\)\n`,
 		"\"bytes\"\n\t\"encoding/json\"\n${1}\tfile, _ := json.MarshalIndent(sequence, \"\", \" \")\n\tfile = bytes.ReplaceAll(file, []byte(\"\\\\u003e\"), []byte(\">\"))\n", "WRAPPERS/JSON text is not edited")
 	fire("C14", "single-hash-lines-skipped", "io/gff/gff.go", `strings\.HasPrefix\(line, "##"\)`, `strings.HasPrefix(line, "#")`, "FIELDMAP/Parse:feature lines")
+	byIndex := func(bound string) string {
+		return "\t\tfor letterIndex := 0; " + bound + "; letterIndex++ {\n\t\t\tletter := sequence[letterIndex : letterIndex+1]\n\t\t\tif !strings.Contains(\"ATUGCYRSWKMBDHVNZ\", letter) {\n\t\t\t\treturn \"\", errors.New(\"Only letters ATUGCYRSWKMBDHVNZ are allowed for DNA/RNA. Got letter: \" + letter)\n"
+	}
+	alphaLoop := `\t\tfor _, char := range sequence \{\n\t\t\tif !strings\.Contains\("ATUGCYRSWKMBDHVNZ", string\(char\)\) \{\n\t\t\t\treturn "", errors\.New\("Only letters ATUGCYRSWKMBDHVNZ are allowed for DNA/RNA\. Got letter: " \+ string\(char\)\)\n`
+	fire("C05", "last-letter-never-validated", sh, alphaLoop, byIndex("letterIndex+1 < len(sequence)"), "GUARD/alphabet test for DNA")
+	silent("C05", "letters-validated-by-index", sh, alphaLoop, byIndex("letterIndex < len(sequence)"))
 }
